@@ -6,6 +6,7 @@ import contextlib
 import io
 import logging
 import os
+import re
 import random
 import shutil
 import tempfile
@@ -43,7 +44,8 @@ RULE = (
 ASSUMPTIONS = [
     "ill-typed membership (missing field `in` a non-container such as an int) is not part of the enumerated grammar",
     "identity operators (is / is not) are not comparisons in the sense of the property and are not enumerated",
-    "iteration over a missing field (any(x for x in r.missing)) and helper calls on a missing field (lower(r.missing)) are not comparisons on the field and are not enumerated",
+    "iteration over a missing field (any(x for x in r.missing)) is not a comparison on the field and is not enumerated",
+    "lower() / upper() of a missing field stay missing and are demanded false-and-never-raise; the text-producing calls str() / repr() / name() / names() / get_type() on a missing field yield ordinary text on the unchanged tree ('str(r.missing) != x' is true in both engines): they are evaluated and counted as observations (events observed:text-call-on-missing:*), not judged",
     "derived operands (arithmetic on / attribute chains of the missing field) are demanded false-and-never-raise from both engines for the operators of the language (+ * / % & |)",
     "stream selectors are comparison templates whose reference value is defined on every record of the stream",
 ]
@@ -100,13 +102,16 @@ DERIVED = [
     # links with the reserved single-underscore names (metadata of a nested record field some record types lack)
     ("attr", "r.zz._source"), ("attr", "r.zz._generated.year"), ("attr", "r.zz._version"), ("attr", "r.zz._classification"),
     ("attr", "r.zz.sub._source"), ("attr", "r.zz._desc.name"), ("attr", "r.zz.sub._generated.year + 1"),
+    # helper functions applied to the missing field: the result is still the missing field
+    ("helper", "lower(r.zz)"), ("helper", "upper(r.zz)"), ("helper", "lower(upper(r.zz))"), ("helper", "lower(r.zz.a)"),
+    ("helper", "upper(r.zz + 'x')"), ("helper", "lower(r.zz) + 'x'"), ("helper", "lower(r.zz._source)"), ("helper", "Type.nosuchtype"),
     # %-formatting: str / bytes never defer to the right operand's reflected method
     ("format", "'%s' % r.zz"), ("format", "'%d' % r.zz"), ("format", "b'%s' % r.zz"), ("format", "'%s' % r.zz.a"), ("format", "'port %s' % (r.zz + 1)"),
     ("format-tuple", "'%s-%s' % (r.zz, 1)"), ("format-tuple", "'%s-%s' % (r.n, r.zz)"), ("format-tuple", "'%d' % (r.zz,)"),
 ]
-DERIVED_OTHERS = ["0", "1", "5", "'x'", "None", "r.n", "[0]", "False", "'443'", "b'x'", "['beta', 'x']", "2000", "['a']",
+DERIVED_OTHERS = ["0", "1", "5", "'x'", "'root'", "r.s", "'xrootx'", "None", "r.n", "[0]", "False", "'443'", "b'x'", "['beta', 'x']", "2000", "['a']",
                   "net.ipv4.Subnet('10.0.0.0/8')", "net.ipnetwork('10.0.0.0/8')", "net.IPNetwork('::/0')", "(1, 'x')"]
-DERIVED_CONTAINERS = ("[", "(", "net.ipv4.Subnet", "net.ipnetwork", "net.IPNetwork")   # may stand on the right of in / not in
+DERIVED_CONTAINERS = ("[", "(", "net.ipv4.Subnet", "net.ipnetwork", "net.IPNetwork", "'root'", "'xrootx'", "r.s")   # may stand on the right of in / not in
 
 HELPERS = [
     "field_contains(r, %s, %s)", "field_contains(r, %s, %s, nocase=False)", "field_contains(r, %s, %s, word_boundary=True)",
@@ -235,7 +240,24 @@ PLAIN_TEMPLATES = [
 PLAIN_VIAS = ("reader-text", "reader-compiled", "rdump", "rdump-n")
 
 
-GROUPED_EXTRA = ["r.f >= 1.5", "r.t == 'Hello'", "'ell' in r.t", "r.k > 1 and r.f > 1", "Type.varint == 2", "has_field(r, 'k')"]
+GROUPED_EXTRA = ["r.f >= 1.5", "r.t == 'Hello'", "'ell' in r.t", "r.k > 1 and r.f > 1", "has_field(r, 'k')"]
+# Type.<t> over grouped records: compositions lacking fields of type t and compositions where the same NAME has another type
+GROUPED_TYPED = ["Type.varint == 2", "Type.varint > 1", "Type.varint in [1, 2, 3]", "Type.varint <= 2", "Type.string == 'Hello'", "'ell' in Type.string",
+                 "Type.float >= 1.5", "field_contains(r, Type.string, ['ell'])", "Type.varint == 2 and has_field(r, 'k')", "not (Type.varint > 1)"]
+
+
+def grouped_names(ti, order):
+    """Field names private to one (template, order) sequence: whatever an implementation remembers per record CLASS
+    (all grouped records share one) is wrong for the next sequence, whichever sequence the process saw first."""
+    tag = "%d%s" % (ti, "a" if order == "with-field-first" else "b")
+    return {"k": "k" + tag, "t": "t" + tag, "f": "f" + tag}
+
+
+def grouped_expr(expr, ti, order):
+    names = grouped_names(ti, order)
+    for old, new in names.items():
+        expr = expr.replace("r.%s" % old, "r.%s" % new).replace("'%s'" % old, "'%s'" % new)
+    return expr
 
 
 def table_rows():
@@ -262,19 +284,32 @@ def generate(ctx):
                        "pool": pool_seed, "rec": ri}
             idx += 1
         for category, dsrc in DERIVED:
-            for op in OPS[:6] + ["in"] + (["not in"] if category.startswith("format") else []):
+            for op in OPS[:6] + ["in"] + (["not in"] if category.startswith("format") or category == "helper" else []):
                 for o in DERIVED_OTHERS:
                     if op in ("in", "not in") and not o.startswith(DERIVED_CONTAINERS):
                         continue
                     if category.startswith("format") and o.startswith("net."):
                         continue   # a formatted text is no address: ill-typed
                     for fmt in ("%s {op} {o}", "{o} {op} %s"):
-                        if op in ("in", "not in") and fmt.startswith("{o}"):
+                        if op in ("in", "not in") and fmt.startswith("{o}") and category != "helper":
                             continue
+                        pos = "L" if fmt.startswith("%s") else "R"
                         fmt = fmt.format(op=op, o=o)
                         if ctx.mine(idx):
-                            yield {"k": "derived", "category": category, "op": op, "cmp": fmt % dsrc, "pool": pool_seed, "rec": ri}
+                            yield {"k": "derived", "category": category, "op": op, "pos": pos, "other": o, "cmp": fmt % dsrc, "pool": pool_seed,
+                                   "rec": ri}
                         idx += 1
+            if category == "helper":
+                for chain in ("'a' < %s <= 'z'", "'a' <= %s != 'root'", "%s == %s", "%s != %s", "r.s != %s != 'root'", "%s < 'z' > 'a'"):
+                    if ctx.mine(idx):
+                        yield {"k": "derived", "category": category, "op": "chain", "pos": "L", "other": "'z'",
+                               "cmp": chain % ((dsrc,) * chain.count("%s")), "pool": pool_seed, "rec": ri}
+                    idx += 1
+        for call in ("str", "repr", "name", "names", "get_type"):
+            for op in OPS[:6]:
+                if ctx.mine(idx):
+                    yield {"k": "observe", "cmp": "%s(r.zz) %s 'root'" % (call, op), "call": call, "pool": pool_seed, "rec": ri}
+                idx += 1
         for h in HELPERS:
             for fl in FIELD_LISTS:
                 for strings in ("['Hello']", "['hello', 'x']", "[r.s]", "['zz']", "['']"):
@@ -291,7 +326,7 @@ def generate(ctx):
     for si in range(ctx.scale(1, 4)):
         sseed = subseed("c08", ctx.seed, "same", si)
         for order in ("with-field-first", "without-field-first"):
-            for ti, expr in enumerate(SAME_TEMPLATES):
+            for ti, expr in enumerate(SAME_TEMPLATES + GROUPED_TYPED[:4]):
                 for vi, via in enumerate(SAME_VIAS):
                     fmts = [FORMATS[(ti + vi + si) % len(FORMATS)]] if (ctx.quick or via.startswith("match")) else FORMATS
                     for fmt in fmts:
@@ -315,7 +350,8 @@ def generate(ctx):
     for si in range(ctx.scale(1, 4)):
         sseed = subseed("c08", ctx.seed, "grouped", si)
         for order in ("with-field-first", "without-field-first"):
-            for ti, expr in enumerate(SAME_TEMPLATES + GROUPED_EXTRA):
+            for ti, expr in enumerate(SAME_TEMPLATES + GROUPED_EXTRA + GROUPED_TYPED):
+                expr = grouped_expr(expr, ti, order)
                 for vi, via in enumerate(SAME_VIAS):
                     gfmts = ("records", "records.gz")   # the binary stream is the only adapter that yields grouped records
                     fmts = [gfmts[(ti + vi + si) % 2]] if (ctx.quick or via.startswith("match")) else gfmts
@@ -392,7 +428,17 @@ def exec_derived(ctx, case):
     rec = pool_for(ctx, case["pool"])[case["rec"]]
     ctx.cell("derived", case["category"], case["op"])
     ctx.nontrivial("derived", case["cmp"], case["pool"], case["rec"])
-    check_comparison(ctx, case, rec, case["cmp"], lambda engine, got, exc: classify_derived(engine, case["category"], got, exc))
+    if case["op"] in OPS and "pos" in case:
+        # the derived operand still is the sentinel: the known mechanisms are those of the plain operator table
+        values = other_values(case["other"], rec)
+        if case["op"] in ("in", "not in") and case["pos"] == "L" and (values is None or not all(is_container(v) for v in values)):
+            ctx.event("skipped:ill-typed-membership")
+            return
+        classify = lambda engine, got, exc: (classify_derived(engine, case["category"], got, exc)  # noqa: E731
+                                             or classify_cmp(engine, case["op"], case["pos"], values, False, got, exc))
+    else:
+        classify = lambda engine, got, exc: classify_derived(engine, case["category"], got, exc)  # noqa: E731
+    check_comparison(ctx, case, rec, case["cmp"], classify)
     ctx.sample({"comparison": case["cmp"], "expected": "False, no exception"}, kind="derived:" + case["category"])
 
 
@@ -475,7 +521,9 @@ def stream_templates():
     # fields, else the comparison is False (the reference evaluator does not model derived operands of a missing field)
     for expr, needs in (("r.k + 1 > 2", "k"), ("r.k * 2 <= 4", "k"), ("4 >= r.k * 2", "k"), ("r.k % 2 == 0", "k"), ("(r.f / 2) < 1", "f"),
                         ("r.d.year == 2020", "d"), ("r.d.year != 1999", "d"), ("r.u.filename == 'z.txt'", "u"), ("r.t + 'x' != 'x'", "t"),
-                        ("r.m + r.k > 0", "m,k"), ("not (r.k + 1 > 2)", "k"), ("r.k + 1 > 2 or r.f > 1", None)):
+                        ("r.m + r.k > 0", "m,k"), ("not (r.k + 1 > 2)", "k"), ("r.k + 1 > 2 or r.f > 1", None),
+                        ("lower(r.t) != 'beta'", "t"), ("upper(r.t) < 'M'", "t"), ("lower(r.t) <= 'hello'", "t"), ("'ell' in lower(r.t)", "t"),
+                        ("lower(r.t) in ['hello', 'x']", "t"), ("upper(r.u.scheme) != 'FTP'", "u"), ("lower(r.t) != lower(r.s)", "t,s")):
         out.append({"expr": expr, "meta": {"op": "derived", "pos": "L", "other": "None", "needs": needs}})
     for expr, needs, cat in (("'%d' % r.k == '2'", "k", "format"), ("'%s' % r.t != 'beta'", "t", "format"), ("'host-%s' % r.t == 'host-b'", "t", "format"),
                              ("'%s-%s' % (r.k, 1) != '2-1'", "k", "format-tuple")):
@@ -713,24 +761,30 @@ def build_same(seed, order, n, ti=0):
     return out
 
 
-def build_grouped(seed, order, n):
+def build_grouped(seed, order, n, ti=0, typed=False):
     """Grouped records of varying composition: every group holds a c08/g1 member (serial number), some also a c08/g2
-    member (fields k, t) and / or a c08/g3 member (field f).  The first group has / lacks the c08/g2 member per `order`."""
+    member (fields k: varint, t: string) and / or a c08/g3 member (field f: float); with typed=True some groups hold a
+    c08/g4 member instead, whose field k is a STRING.  The first group has / lacks the c08/g2 member per `order`.
+    The field names k, t, f are private to (template, order), see grouped_names()."""
     from flow.record import GroupedRecord, RecordDescriptor
 
     rng = random.Random(seed)
-    G1 = RecordDescriptor("c08/g1", [("varint", "seq"), ("string", "s")])
-    G2 = RecordDescriptor("c08/g2", [("varint", "k"), ("string", "t")])
-    G3 = RecordDescriptor("c08/g3", [("float", "f")])
+    nm = grouped_names(ti, order)
+    G1 = RecordDescriptor("c08/g1", [("uint32", "seq"), ("string", "s")])
+    G2 = RecordDescriptor("c08/g2", [("varint", nm["k"]), ("string", nm["t"])])
+    G3 = RecordDescriptor("c08/g3", [("float", nm["f"])])
+    G4 = RecordDescriptor("c08/g4", [("string", nm["k"])])
     first = [True, False] if order == "with-field-first" else [False, True]
     out = []
     for i in range(n):
         with_k = first[i] if i < 2 else rng.random() < 0.5
         members = [G1(seq=i, s=rng.choice(selgen.TEXTS))]
         if with_k:
-            members.append(G2(k=rng.choice(selgen.INTS), t=rng.choice(selgen.TEXTS)))
+            members.append(G2(**{nm["k"]: rng.choice(selgen.INTS), nm["t"]: rng.choice(selgen.TEXTS)}))
+        elif typed and i >= 2 and rng.random() < 0.5:
+            members.append(G4(**{nm["k"]: rng.choice(selgen.TEXTS)}))
         if rng.random() < 0.5:
-            members.append(G3(f=rng.choice([0.0, 1.5, 100.0])))
+            members.append(G3(**{nm["f"]: rng.choice([0.0, 1.5, 100.0])}))
         rng.shuffle(members)
         out.append(GroupedRecord("c08/group", members))
     return out
@@ -791,7 +845,7 @@ def exec_same_name(ctx, case):
                     f.write(json.dumps(o) + "\n")
         cache[key] = (path, records)
     if key not in cache:
-        records = build_grouped(case["s"], order, case["n"]) if grouped else build_same(case["s"], order, case["n"], ti)
+        records = build_grouped(case["s"], order, case["n"], ti, "Type." in expr) if grouped else build_same(case["s"], order, case["n"], ti)
         path = os.path.join(ctx.state["tmp"], "%s-%x-%s-%d-%d.%s" % (case["k"], case["s"], order, case["n"], ti, fmt))
         w = RecordWriter(path)
         for r in records:
@@ -801,7 +855,7 @@ def exec_same_name(ctx, case):
         cache[key] = (path, records)
     path, records = cache[key]
     try:
-        if expr in ("r.k + 1 > 2", "r.pid + 1 > 10"):
+        if re.fullmatch(r"r\.\w+ \+ 1 > \d+", expr):
             keep = [expr[2:].split(" ")[0] in r._desc.fields and ref_match(expr, r) for r in records]
         else:
             keep = [ref_match(expr, r, lenient=True) for r in records]
@@ -849,8 +903,18 @@ def exec_same_name(ctx, case):
                           "input": [repr(r)[:120] for r in records[:6]]})
 
 
+def exec_observe(ctx, case):
+    """Text-producing calls on a missing field: recorded, not judged (see ASSUMPTIONS)."""
+    rec = pool_for(ctx, case["pool"])[case["rec"]]
+    for engine, cls in engines():
+        got, _ = run_engine(cls, case["cmp"], rec)
+        ctx.event("observed:text-call-on-missing:%s:%s:%s" % (case["call"], engine, "raised" if got[0] == "E" else got[1]))
+
+
 def execute(ctx, case):
     k = case["k"]
+    if k == "observe":
+        return exec_observe(ctx, case)
     if k in ("same-name", "grouped", "plain-json"):
         return exec_same_name(ctx, case)
     if k == "table":
